@@ -101,7 +101,7 @@ def obligations(tier, ctx):
     for has in (True, False):
         for be in (("P",) if tier == "quick" else ("F", "P")):
             obs.append(Ob(name=f"after_{'id' if has else 'noid'}_{be}", params=[("mi", "int"), ("ev", "int"), ("hsel", "int"), ("psel", "int")] + ([("rid", "int")] if be == "F" and has else []),
-                          pre=[(f"0 <= mi < {N}" if tier != "quick" else "mi in (1, 3, 5, 7, 8, 9, 12)"), "0 <= ev <= 7", "hsel in (0, 6)", "psel in (0, 6, 7)"],
-                          call=f"H.dispatch_after(mi, {has}, {('rid' if be == 'F' else '7') if has else 'None'}, ev, hsel, psel)", backend=be, timeout=900,
+                          pre=[(f"0 <= mi < {N}" if (tier != "quick" and be == "P") else "mi in (1, 3, 5, 7, 8, 9, 12)"), "0 <= ev <= 7", ("hsel in (0, 6)" if be == "P" else "hsel == 0"), ("psel in (0, 6, 7)" if be == "P" else "psel in (0, 6)")],
+                          call=f"H.dispatch_after(mi, {has}, {('rid' if be == 'F' else '7') if has else 'None'}, ev, hsel, psel)", backend=be, timeout=900 if be == "P" else 1800,
                           family="after an earlier message on the same server (same method in the other form, failing handlers, unregistered methods, reused id, malformed call, initialize)"))
     return obs
